@@ -58,6 +58,12 @@ static bool snapshotOrder(std::vector<int>& order)
     }
     return true;
 }
+// reverse or shuffle left a list with a cycle or a duplicate: stop before the library walks it for ever
+static void checkList()
+{
+    std::vector<int> order;
+    if (!snapshotOrder(order)) { Rep r; r.order = order; gReps.push_back(r); gOpen = false; throw BrokenList(); }
+}
 static void beginRep()
 {
     gCur = Rep(); gOpen = true;
@@ -93,6 +99,10 @@ public:
     void printBuffer(const char*) CPPUTEST_OVERRIDE {}
     void flush() CPPUTEST_OVERRIDE {}
     void printTestRun(size_t, size_t) CPPUTEST_OVERRIDE { if (cli_) beginRep(); }
+    // the runner announces shuffling after reversing and before the first shuffle: the only point in between
+    void print(const char* s) CPPUTEST_OVERRIDE { if (cli_ && strncmp(s, "Test order shuffling", 20) == 0) checkList(); }
+    void print(long) CPPUTEST_OVERRIDE {}
+    void print(size_t) CPPUTEST_OVERRIDE {}
     void printTestsStarted() CPPUTEST_OVERRIDE { event(":S"); }
     void printTestsEnded(const TestResult& r) CPPUTEST_OVERRIDE
     {
@@ -168,7 +178,7 @@ int main()
                 reg.setNameFilters(buildFilters(nf, owned));
                 if (ri) reg.setRunIgnored();
                 RecordingOutput out(false);
-                if (rev) reg.reverseTests();
+                if (rev) { reg.reverseTests(); checkList(); }
                 for (unsigned long long r = 0; r < repeat; r++) {
                     if (shuffle) reg.shuffleTests((size_t)seed);
                     beginRep();
